@@ -157,7 +157,7 @@ def main():
             print(r.err.decode("latin1")[-3000:])
             return 1 if (r.crashed or r.timeout) else 0
         quick = cr.quick
-        fns = baseimgs.ALL[:3] if quick else baseimgs.ALL
+        fns = baseimgs.ALL[:4] if quick else baseimgs.ALL
         for fn in fns:
             name, root, kw = fn()
             img, fields = mkimg.build(root, **kw)
